@@ -543,7 +543,7 @@ func runHandshakes(s *kernel.Sim, c *scen.Case) {
 		}
 		return ep, nil
 	}
-	shape := kernel.Pick(t, "shape", "claimtobe", "token", "noauth")
+	shape := kernel.Pick(t, "shape", "claimtobe", "token", "noauth", "ssl")
 	tw := hs.NewTokenWorld(t)
 	var methods []security.AuthMethod
 	alevel := security.SecurityRequired
@@ -554,6 +554,17 @@ func runHandshakes(s *kernel.Sim, c *scen.Case) {
 		methods = []security.AuthMethod{security.AuthToken}
 	case "noauth":
 		alevel = security.SecurityNever
+	case "ssl":
+		methods = []security.AuthMethod{security.AuthSSL}
+	}
+	var sw *hs.SSLWorld
+	if shape == "ssl" {
+		var err error
+		if sw, err = hs.NewSSLWorld(); err != nil {
+			s.Violate("harness", "ssl-world", err.Error())
+			return
+		}
+		defer sw.Close()
 	}
 	// ONE client-side security configuration shared by every client task
 	cliCfg := hs.Cfg(alevel, security.SecurityRequired, methods, hs.AES, echoCmd)
@@ -564,6 +575,10 @@ func runHandshakes(s *kernel.Sim, c *scen.Case) {
 	srvCfg := hs.Cfg(alevel, security.SecurityRequired, methods, hs.AES, security.NoCommand)
 	tw.ServerToken(srvCfg)
 	srvCfg.SessionCache = w.srvCache
+	if sw != nil {
+		sw.Client(cliCfg)
+		sw.Server(srvCfg)
+	}
 	srv := server.New(srvCfg)
 	if t.Chance("per-command-config", 1, 2) {
 		// the application keeps one policy object per command and hands the same object to
